@@ -10,7 +10,7 @@ from .mutate import mutate
 LEVEL = 'fault_enumeration'
 BUDGET_S = {'quick': 260, 'thorough': 1800}
 BOUNDS = {
-    'quick': 'universe U7; skeleton set A; an OSError while the cache file is written (open, data, rename) after the root returned (cachewrite families); crash point symbolic: any statement boundary of the root function or of any '
+    'quick': 'universe U7; skeleton set A; an OSError (or, at the data write, the ValueError json raises for an unprintable integer) while the cache file is written (open, data, rename) after the root returned (cachewrite families); crash point symbolic: any statement boundary of the root function or of any '
              'nested function (before each statement / after the last), on history prefixes none, B, B.M (deleted / '
              'tampered outputs, foreign files at targets, file<->dir swaps); then one more build (twin comparison)',
     'thorough': 'skeleton sets A+B, wider holes, two mutations before the failing build',
@@ -53,7 +53,8 @@ def families(tier):
     q.append({'name': 'backups', 'params': {}, 'weight': 1})
     # '... or while the cache file is being written': an OSError at the open / data write / final rename of the cache write
     q.append({'name': 'cachewrite', 'params': {'skel': 'A3', 'hist': 'X', 'kinds': ['is_dir'], 'roles': ['o'], 'targets': ['o/d/g'],
-                                               'modes': ['ok']}, 'weight': 1})
+                                               'modes': ['ok'], 'fault_excs': ['OSError', 'ValueError'], 'cache': 'c/cache',
+                                               'universe': ['c', 'o', 'o/d', 'o/d/g', 'in', 'in/x']}, 'weight': 1})
     # ... with the cache file in a directory that the previous build created (and recorded)
     q.append({'name': 'cachewrite', 'params': {'skel': 'A3', 'hist': 'BX', 'kinds': ['is_dir'], 'roles': ['o'], 'targets': ['o/d/g', 'c/t'],
                                                'modes': ['ok'], 'cache': 'c/cache', 'universe': ['c', 'o', 'o/d', 'o/d/g', 'in', 'in/x']}, 'weight': 1})
